@@ -9,55 +9,12 @@ Open Scope nat_scope.
 
 Local Notation L := (@List.length N).
 
-Lemma print_char_len raw_ok m c : 1 <= L (print_char raw_ok m c).
+Lemma acts_cost_len acts : acts_ok acts = true -> acts_cost acts <= L (print_acts acts).
 Proof.
-  unfold print_char. destruct m; [| destruct (self_esc c) | destruct (letter_of c)];
-    try (destruct (raw_ok c)); cbn [List.length]; lia.
-Qed.
-
-Lemma print_chars_len raw_ok x : forall ms, L x <= L (print_chars raw_ok ms x).
-Proof.
-  induction x as [|c x IH]; intro ms; cbn [print_chars List.length]; [lia|].
-  rewrite app_length. pose proof (print_char_len raw_ok (hd MRaw ms) c). specialize (IH (tl ms)). lia.
-Qed.
-
-Lemma ntext_len t : 1 <= L (ntext_str t).
-Proof.
-  destruct t; cbn [ntext_str]; repeat (rewrite app_length; cbn [List.length]); try lia.
-  pose proof (dec_N_nonempty n). destruct (dec_N n); [contradiction | cbn [List.length]; lia].
-Qed.
-
-Lemma items_len bs : items bs <= L (print_bparts bs).
-Proof.
-  induction bs as [|b bs IH]; [reflexivity|]. unfold items, print_bparts in *. cbn [fold_right flat_map].
-  rewrite app_length. destruct b as [x ms|t]; cbn [print_bpart].
-  - pose proof (print_chars_len raw_ok_b x ms). lia.
-  - pose proof (ntext_len t). lia.
-Qed.
-
-Lemma seg_cost_len sg : S (seg_cost sg) <= L (print_seg sg).
-Proof.
-  destruct sg as [q ms x | bs]; cbn [seg_cost print_seg].
-  - unfold print_quoted. cbn [List.length]. rewrite app_length. cbn [List.length]. lia.
-  - change (fold_right _ 0 bs) with (items bs). unfold print_braced. cbn [List.length]. rewrite app_length.
-    cbn [List.length]. pose proof (items_len bs). lia.
-Qed.
-
-Lemma name_cost_len nm : name_cost nm <= S (L (print_name nm)).
-Proof.
-  destruct nm as [first more]. unfold name_cost, print_name. cbn [nm_first nm_more]. rewrite app_length.
-  pose proof (seg_cost_len first).
-  assert (H2 : fold_right (fun p n => S (seg_cost (snd p) + n)) 0 more <= L (print_more more)).
-  { induction more as [|[w sg] more IH]; [reflexivity|]. cbn [fold_right print_more snd].
-    rewrite !app_length. pose proof (seg_cost_len sg). lia. }
-  lia.
-Qed.
-
-Lemma acts_cost_len acts : acts_cost acts <= L (print_acts acts).
-Proof.
-  induction acts as [|[[w1 w2] nm] acts IH]; [reflexivity|]. rewrite print_acts_cons.
+  induction acts as [|[[w1 w2] nm] acts IH]; intro Hok; [reflexivity|]. rewrite print_acts_cons.
+  cbn [acts_ok forallb fst snd] in Hok. apply andb_true_iff in Hok as [Hn Hok]. apply andb_true_iff in Hn as [_ Hn].
   unfold acts_cost in *. cbn [fold_right snd]. rewrite app_length. cbn [List.length]. rewrite !app_length.
-  pose proof (name_cost_len nm). generalize dependent (name_cost nm). intros; lia.
+  pose proof (name_cost_len nm Hn). specialize (IH Hok). generalize dependent (name_cost nm). intros; lia.
 Qed.
 
 Lemma amt_cost_len am : amt_cost am <= L (print_amt am).
@@ -75,22 +32,37 @@ Proof.
   destruct w0 as [|h w0']; cbn [fold_right List.length]; lia.
 Qed.
 
-Lemma cost_len : forall h e, height e <= h -> cost e <= 2 * L (print_expr e) + 2.
+Lemma expr_ok_name e nm : (exists a, e = XRef a nm) \/ (exists w s0 f m tr s1, e = XStep nm w s0 f m tr s1) ->
+  expr_ok e = true -> name_ok nm = true.
 Proof.
-  induction h as [|h IH]; intros e Hh.
+  intros [[a ->] | [w [s0 [f [m [tr [s1 ->]]]]]]]; cbn [expr_ok]; intro H.
+  - destruct a as [[am w]|].
+    + apply andb_true_iff in H as [H _]. apply andb_true_iff in H as [_ H]. exact H.
+    + apply andb_true_iff in H as [H _]. exact H.
+  - do 6 (apply andb_true_iff in H as [H _]). exact H.
+Qed.
+
+Lemma cost_len : forall h e, height e <= h -> expr_ok e = true -> cost e <= 2 * L (print_expr e) + 2.
+Proof.
+  induction h as [|h IH]; intros e Hh Hok.
   - destruct e; cbn [height] in Hh; lia.
   - destruct e as [a nm | nm w s0 first more trail s1 | s0 e acts s1].
-    + cbn [cost print_expr]. rewrite app_length. pose proof (name_cost_len nm).
+    + pose proof (expr_ok_name _ nm (or_introl (ex_intro _ a eq_refl)) Hok) as Hn.
+      cbn [cost print_expr]. rewrite app_length. pose proof (name_cost_len nm Hn).
       assert (2 <= name_cost nm) by (unfold name_cost; lia).
       assert (Ha : ref_amt_cost a <= L (match a with Some (am, w) => print_amt am ++ w | None => [] end)).
       { destruct a as [[am w]|]; cbn [ref_amt_cost]; [rewrite app_length; pose proof (amt_cost_len am); lia | lia]. }
       generalize dependent (name_cost nm). generalize dependent (ref_amt_cost a). intros; lia.
-    + cbn [height] in Hh. rewrite print_expr_step. cbn [cost]. fold (args_cost more).
+    + pose proof (expr_ok_name _ nm (or_intror (ex_intro _ w (ex_intro _ s0 (ex_intro _ first (ex_intro _ more (ex_intro _ trail (ex_intro _ s1 eq_refl))))))) Hok) as Hn.
+      cbn [expr_ok] in Hok. apply andb_true_iff in Hok as [Hok _]. apply andb_true_iff in Hok as [Hok _].
+      apply andb_true_iff in Hok as [Hok Hmore]. apply andb_true_iff in Hok as [_ Hfirst].
+      cbn [height] in Hh. rewrite print_expr_step. cbn [cost]. fold (args_cost more).
       repeat (rewrite app_length; cbn [List.length]).
-      pose proof (name_cost_len nm). pose proof (IH first ltac:(pose proof (height_first more first); lia)).
+      pose proof (name_cost_len nm Hn). pose proof (IH first ltac:(pose proof (height_first more first); lia) Hfirst).
       assert (Hm : args_cost more <= 2 * L (print_args more) + 0).
       { assert (G : forall p, In p more -> cost (snd p) <= 2 * L (print_expr (snd p)) + 2).
-        { intros p Hp. apply IH. pose proof (height_in more first p Hp). lia. }
+        { intros p Hp. rewrite forallb_forall in Hmore. specialize (Hmore p Hp). apply andb_true_iff in Hmore as [_ He].
+          apply IH; [pose proof (height_in more first p Hp); lia | exact He]. }
         clear - G. induction more as [|[[sa sb] e] more IHm]; [reflexivity|].
         unfold args_cost, print_args in *. cbn [fold_right flat_map fst snd].
         repeat (rewrite app_length; cbn [List.length]).
@@ -104,16 +76,21 @@ Proof.
       { unfold print_tail. repeat (rewrite app_length; cbn [List.length]). lia. }
       clear Hh. generalize dependent (name_cost nm). generalize dependent (cost first).
       generalize dependent (args_cost more). intros; lia.
-    + cbn [height] in Hh. cbn [cost print_expr List.length]. repeat (rewrite app_length; cbn [List.length]).
-      pose proof (IH e ltac:(lia)). pose proof (acts_cost_len acts). lia.
+    + cbn [expr_ok] in Hok. apply andb_true_iff in Hok as [Hok _]. apply andb_true_iff in Hok as [Hok Hacts].
+      apply andb_true_iff in Hok as [_ He].
+      cbn [height] in Hh. cbn [cost print_expr List.length]. repeat (rewrite app_length; cbn [List.length]).
+      pose proof (IH e ltac:(lia) He). pose proof (acts_cost_len acts Hacts). lia.
 Qed.
 
-Lemma stmt_cost_len st : stmt_cost st <= 2 * L (print_stmt st) + 4.
+Lemma stmt_cost_len st : stmt_ok st = true -> stmt_cost st <= 2 * L (print_stmt st) + 4.
 Proof.
+  intro Hok. unfold stmt_ok in Hok. apply andb_true_iff in Hok as [Hok _].
+  apply andb_true_iff in Hok as [Hok Ha]. apply andb_true_iff in Hok as [Ht He].
   unfold stmt_cost, print_stmt. repeat rewrite app_length.
-  pose proof (cost_len (height (ps_expr st)) (ps_expr st) (le_n _)). pose proof (acts_cost_len (ps_acts st)).
+  pose proof (cost_len (height (ps_expr st)) (ps_expr st) (le_n _) He). pose proof (acts_cost_len (ps_acts st) Ha).
   destruct (ps_first_out st) as [[[[[n0 more] w1] named] w2]|]; cbn [print_target List.length].
-  - repeat rewrite app_length. pose proof (name_cost_len n0). pose proof (acts_cost_len more). generalize dependent (name_cost n0). intros; lia.
+  - apply andb_true_iff in Ht as [Ht _]. apply andb_true_iff in Ht as [Ht _]. apply andb_true_iff in Ht as [Hn0 Hmore].
+    repeat rewrite app_length. pose proof (name_cost_len n0 Hn0). pose proof (acts_cost_len more Hmore). generalize dependent (name_cost n0). intros; lia.
   - lia.
 Qed.
 
@@ -134,10 +111,17 @@ Proof.
   destruct Hs as [Hs Hl]. pose proof (print_stmt_len st Hs). specialize (IH Hl). lia.
 Qed.
 
-Lemma stmts_cost_len l : stmts_cost l <= 2 * L (print_stmts l) + 4.
+Lemma stmts_ok_split st l : stmts_ok (st :: l) = true -> stmt_ok st = true /\ stmts_ok l = true.
 Proof.
-  induction l as [|st l IH]; unfold stmts_cost, print_stmts in *; cbn [fold_right flat_map]; [cbn [List.length]; lia|].
-  rewrite app_length. pose proof (stmt_cost_len st).
+  intro H. cbn [stmts_ok] in H. destruct l; [split; [exact H | reflexivity]|].
+  apply andb_true_iff in H as [H Hl]. apply andb_true_iff in H as [H _]. split; assumption.
+Qed.
+
+Lemma stmts_cost_len l : stmts_ok l = true -> stmts_cost l <= 2 * L (print_stmts l) + 4.
+Proof.
+  induction l as [|st l IH]; intro Hok; unfold stmts_cost, print_stmts in *; cbn [fold_right flat_map]; [cbn [List.length]; lia|].
+  destruct (stmts_ok_split st l Hok) as [Hs Hl]. specialize (IH Hl).
+  rewrite app_length. pose proof (stmt_cost_len st Hs).
   generalize dependent (stmt_cost st). intros. lia.
 Qed.
 
@@ -148,5 +132,5 @@ Proof.
     unfold recipe_ok in Hok; apply andb_true_iff in Hok as [_ Hs];
     unfold fuel_for, print_recipe; rewrite app_length.
   - pose proof (stmts_len (pr_stmts r) Hs). lia.
-  - pose proof (stmts_cost_len (pr_stmts r)). lia.
+  - pose proof (stmts_cost_len (pr_stmts r) Hs). lia.
 Qed.
